@@ -26,10 +26,15 @@ COMMENT_TEXTS = [
     "grüße aus dem wald – café",
     "step three of the walkthrough",
     "x",
+    # remarks that mention names used in the code next to them (still comments: no fact a rule may look at)
+    "{id} is explained in the handbook",
+    "remember: {id} and {id2} belong together",
+    "{id}",
 ]
 FORBIDDEN_WORDS = ("thailint", "noqa", "dry:", "type:", "pylint", "eslint", "nosec", "todo", "fixme", "ignore", "purpose", "scope",
                    "overview", "@ts", "nolint", "allow", "expect", "deny", "safety", "hack", "xxx")
 assert not any(w in t.lower() for t in COMMENT_TEXTS for w in FORBIDDEN_WORDS)
+_WORD = re.compile(r"[A-Za-z_][A-Za-z_0-9]{2,}")
 
 TRAILING = [" ", "  ", "\t", " \t ", "    "]
 UNITS = {"4": "    ", "2": "  ", "8": "        ", "tab": "\t"}
@@ -166,6 +171,18 @@ def apply(state: FileState, edit: dict):
             new = [ws] * n
         else:
             txt = COMMENT_TEXTS[edit.get("t", 0) % len(COMMENT_TEXTS)]
+            if "{id" in txt:
+                # identifiers of the code lines around the insertion point (strings and existing comments excluded)
+                near = []
+                for ln in s.lines[max(s.hdr, at - 3): at + 3]:
+                    code = ln.split(seeds.COMMENT[s.lang])[0]
+                    for seg, is_str in split_outside_strings(code):
+                        if not is_str:
+                            near += [w for w in _WORD.findall(seg) if not any(f in w.lower() for f in FORBIDDEN_WORDS)]
+                # local-looking names first (parameters, let/const bindings), then everything else
+                near = [w for w in near if _IDENT.fullmatch(w)] or near or ["value"]
+                near = list(dict.fromkeys(near))
+                txt = txt.replace("{id2}", near[(edit.get("t", 0) // len(COMMENT_TEXTS) + 1) % len(near)]).replace("{id}", near[(edit.get("t", 0) // len(COMMENT_TEXTS)) % len(near)])
             # indentation: that of the next non-blank line (column 0 at end of file), or column 0 when asked
             ind = ""
             if edit.get("ind", 1):
